@@ -10,6 +10,31 @@ use std::fmt::Write;
 use crate::node::{ErasedNode, NodeId};
 use crate::state::IncrStatus;
 use crate::{Incr, IncrState, NodeRef, Observer, Value};
+use std::cell::Cell;
+
+thread_local! {
+    static LIVE_NODES: Cell<i64> = Cell::new(0);
+}
+
+/// one per `Node`: the number of nodes not yet freed on this thread
+pub(crate) struct LiveToken;
+impl LiveToken {
+    pub(crate) fn new() -> Self {
+        LIVE_NODES.with(|c| c.set(c.get() + 1));
+        LiveToken
+    }
+}
+impl Drop for LiveToken {
+    fn drop(&mut self) {
+        LIVE_NODES.with(|c| c.set(c.get() - 1));
+    }
+}
+
+/// nodes created on this thread that have not been freed
+pub fn verif_live_nodes() -> i64 {
+    LIVE_NODES.with(|c| c.get())
+}
+
 
 fn alive_nodes(state: &crate::state::State) -> (Vec<(usize, NodeRef)>, HashMap<NodeId, usize>) {
     let reg = state.verif_registry.borrow();
@@ -96,6 +121,8 @@ impl IncrState {
             .unwrap();
             let ch: Vec<String> = n.verif_children().iter().map(|(_, c)| name(c.id())).collect();
             write!(s, " ch=[{}]", ch.join(",")).unwrap();
+            let raw: Vec<String> = n.verif_children_raw().iter().map(|c| name(c.id())).collect();
+            write!(s, " refs=[{}]", raw.join(",")).unwrap();
             if let Some((fs, inv, all, edges)) = n.verif_expert() {
                 write!(s, " x=[fs={} inv={} all={} edges={}]", b(fs), inv, b(all), edges).unwrap();
             }
